@@ -186,7 +186,10 @@ fn check_table(c: &TableCase, st: &mut Stats) -> Outcome {
     let spec = table_spec(c);
     let text = spec.render();
     let raw_text = spec.without_meta().render();
-    let tt = if c.rn { TT::Rn } else if c.pager { TT::Pager } else { TT::Lalr };
+    // right-nulled tables only under GLR: an LR parser over LALR_RN resolves the zero-length
+    // reductions of a right-nulled table (shortcut of a non-empty production vs EMPTY production)
+    // by a rule that is documented nowhere, so nothing is asserted about those cells
+    let tt = if c.rn && c.glr { TT::Rn } else if c.pager { TT::Pager } else { TT::Lalr };
     let raw = match compile_or_discard(&raw_text, &Cfg::raw(tt), st) {
         Ok(d) => d,
         Err(Some(_)) => {
@@ -575,7 +578,7 @@ impl Prop for C05 {
     fn rule(&self) -> String {
         "part 1: generated conflict-rich BNF grammars with random priorities / left|reduce|right|shift \
          / nops / nopse on productions and rules, associativity on terminals, x {LR,GLR} x \
-         prefer_shifts x prefer_shifts_over_empty x {LALR, LALR_PAGER, LALR_RN}; two real dumps of the same \
+         prefer_shifts x prefer_shifts_over_empty x {LALR, LALR_PAGER; LALR_RN under GLR}; two real dumps of the same \
          rules: raw (meta stripped, nothing resolved) and resolved; for every cell with competing \
          actions: two-candidate cells are compared with the documented \
          decision function (priority, terminal-over-production associativity, prefer-shift flags \
